@@ -38,7 +38,7 @@ func (c06) Cases(tier string, race bool) int {
 	return 80000
 }
 
-var c06atoms = []string{"<", ">", "&", `\`, `"`, "u003c", `<`, `\\u003c`, `>`, `&`, `\\u0026`, "a", "é", "\x01", "\n", "\t", " ", "{", "}", "[", "]", ":", ",", " ", " ", "/", "</script>", "\x7f"}
+var c06atoms = []string{"<", ">", "&", `\`, `"`, "u003c", `<`, `\\u003c`, `>`, `&`, `\\u0026`, "a", "é", "\x01", "\n", "\t", " ", "{", "}", "[", "]", ":", ",", " ", " ", "/", "</script>", "\x7f", `\u2028`, `\\u2029`, "u2028", "\u2029", `\u00e9`, `\n`, `\"`}
 
 func c06str(r *rand.Rand) string {
 	var b strings.Builder
